@@ -516,7 +516,11 @@ pub fn generate(rng: &mut Rng, property: &str, deep: bool) -> BScn {
     if (fork >> 20) % 12 == 0 {
         cfg.crowd = Some((((fork >> 32) % cfg.tls.len() as u64) as usize, 6 + ((fork >> 40) % 35) as u8));
     }
-    if fork % MARATHON_ONE_IN == 0 {
+    // (not with an overshooting easing in the pool: re-targeting again and again from the current
+    // component under a Back curve can ratchet a value out of an integer's range - the panic
+    // `Lerp` documents)
+    let overshooting = cfg.tls.iter().any(|m| m.parts.iter().any(|p| p.uses_back()));
+    if fork % MARATHON_ONE_IN == 0 && !overshooting {
         let mut r = Rng::new(fork ^ 0x6d61_7261_7468_6f6e);
         total_frames = n_frames + r.range(250, if extreme { 600 } else if deep { 3000 } else { 1200 }) as usize;
         tail_rng = Some(r);
